@@ -6,7 +6,7 @@ import ast
 
 from ..cfg import CFG
 from ..facts import calls_in
-from ..index import dotted_of, norm, own_nodes
+from ..index import FuncInfo, dotted_of, norm, own_nodes
 from ..shared import s1_sites
 
 PROPERTY = "C18"
@@ -21,8 +21,12 @@ RULES = {
     "with `<value>.graph` receives, at every call site (followed up through forwarding parameters), an expression whose "
     "inferred classes are all Graph - a GraphView or Function is never the `.graph` of a value, so the test would be "
     "constantly false and captured outer values would be skipped",
+    "R5": "the clone that ends an extraction rejects uncovered outer-scope values: the Cloner constructed by the clone() "
+    "method that extract() returns through has allow_outer_scope_values false - passed explicitly as False, or left "
+    "to a parameter default that is the constant False (the frontier check only sees direct inputs of the selected "
+    "nodes; values captured by nested bodies are caught by the cloner)",
 }
-FLOORS = {"R1": 1, "R2": 4, "R3": 3, "R4": 2}
+FLOORS = {"R1": 1, "R2": 4, "R3": 3, "R4": 2, "R5": 1}
 EXPLANATION = (
     "Return-value provenance of extract(), sibling agreement of the two subgraph-attribute branches, push/pop pairing "
     "and dominance of the boundary validation over the result."
@@ -118,8 +122,65 @@ def rule_r4(ctx):
     ctx.require(n >= 1, "no call site supplies an ownership anchor")
 
 
+def rule_r5(ctx):
+    repo = ctx.repo
+    f = repo.func(f"{EX}:extract")
+    # the clone() method extract() returns through: <local bound to a GraphView(...)>.clone()
+    views = {}
+    for n in own_nodes(f.node):
+        if isinstance(n, ast.Assign) and isinstance(n.targets[0], ast.Name) and isinstance(n.value, ast.Call):
+            k = ctx.typer.ctor_class(f, n.value)
+            if k is not None:
+                views[n.targets[0].id] = k
+    n_sites = 0
+    for r in (x for x in own_nodes(f.node) if isinstance(x, ast.Return)):
+        v = r.value
+        if not (isinstance(v, ast.Call) and isinstance(v.func, ast.Attribute) and v.func.attr == "clone" and isinstance(v.func.value, ast.Name)
+                and v.func.value.id in views):
+            continue
+        m = repo.lookup(views[v.func.value.id], "clone")
+        if not isinstance(m, FuncInfo):
+            continue
+        passed = next((k.value for k in v.keywords if k.arg == "allow_outer_scope_values"), None)
+        for c in calls_in(m):
+            k = ctx.typer.ctor_class(m, c)
+            if k is None or k.name != "Cloner":
+                continue
+            n_sites += 1
+            init = repo.lookup(k, "__init__")
+            arg = next((kw.value for kw in c.keywords if kw.arg == "allow_outer_scope_values"), None)
+            eff, src = None, ""
+            if arg is None:
+                # the constructor's own default
+                a = init.node.args
+                d = {p.arg: dv for p, dv in zip(a.kwonlyargs, a.kw_defaults) if dv is not None}
+                d.update({p.arg: dv for p, dv in zip(reversed(a.posonlyargs + a.args), reversed(a.defaults))})
+                eff, src = d.get("allow_outer_scope_values"), f"default of {k.name}.__init__"
+            elif isinstance(arg, ast.Name) and arg.id in m.params:
+                # forwarded parameter of clone(): what extract() passes, else clone()'s default
+                if passed is not None:
+                    eff, src = passed, "argument of extract()'s clone call"
+                else:
+                    a = m.node.args
+                    d = {p.arg: dv for p, dv in zip(a.kwonlyargs, a.kw_defaults) if dv is not None}
+                    d.update({p.arg: dv for p, dv in zip(reversed(a.posonlyargs + a.args), reversed(a.defaults))})
+                    eff, src = d.get(arg.id), f"default of {m.local}({arg.id})"
+            else:
+                eff, src = arg, f"argument in {m.local}"
+            ok = isinstance(eff, ast.Constant) and eff.value is False
+            ctx.check("R5", f"{m.local}: Cloner(allow_outer_scope_values) is False ({src})", ok, m, c,
+                      f"the clone that ends extract() is built with allow_outer_scope_values = {norm(eff) if eff is not None else '?'} ({src}): a value of the "
+                      "source graph captured by a nested body and not covered by the inputs is wired into the result instead of raising - "
+                      "the extracted graph refers to an object of the source",
+                      how="effective value of the flag at the Cloner construction reached from extract()'s return", construct="outer-scope values allowed in extract()'s clone")
+    if n_sites == 0:
+        # extract() does not return through a clone() at all: that is R1's violation, nothing to add here
+        ctx.ob("R5", "extract() does not return through <view>.clone() (reported by R1)", True, nontrivial=False)
+
+
 def run(ctx):
     rule_r4(ctx)
+    rule_r5(ctx)
     repo = ctx.repo
     f = repo.func(f"{EX}:extract")
     rets = [n for n in own_nodes(f.node) if isinstance(n, ast.Return)]
